@@ -1,6 +1,9 @@
 (* C16 — start-up validation admits only configurations that are safe to run; documented keys are honoured.
-   Theorems only.  `gen_validate` / `gen_rules` / the key tables are GENERATED from the current source (Generated.v):
-   these proofs are re-run against whatever ValidateNodeGroup contains now. *)
+   Theorems only, about the hand-written validation model (`model_validate` / `model_rules`, SpecConfig.v) — this file does
+   not depend on coq/Generated.v.  The model is tied to controller.ValidateNodeGroup by the correspondence run (verdict and
+   number of problems, every case) and, as a SUPPLEMENT, by Properties/C16Src.v: the rule list re-derived from the source
+   on every run equals `model_rules`, and the documented keys are json names of the option structs (`c16_keys`, a fact
+   only the source can give; the decoder half of the run checks the same against the compiled structs). *)
 From Coq Require Import String ZArith List.
 From Esc Require Import SpecConfig proofs.ConfigProofs.
 Import ListNotations.
@@ -8,13 +11,13 @@ Open Scope string_scope.
 Open Scope Z_scope.
 
 (* for every configuration (all Z, all strings, every result of time.ParseDuration) *)
-Theorem c16_sound : forall c, gen_validate c = true -> safe c.
-Proof. exact gen_validate_safe. Qed.
+Theorem c16_sound : forall c, model_validate c = true -> safe c.
+Proof. exact model_validate_safe. Qed.
 Print Assumptions c16_sound.
 
-(* accepted = ValidateNodeGroup returned no problem = no generated rule is false *)
-Theorem c16_problems : forall c, gen_problems c = 0 <-> gen_validate c = true.
-Proof. exact gen_problems_zero. Qed.
+(* accepted = ValidateNodeGroup returned no problem = no rule is false *)
+Theorem c16_problems : forall c, model_problems c = 0 <-> model_validate c = true.
+Proof. exact model_problems_zero. Qed.
 Print Assumptions c16_problems.
 
 (* the boolean checker evaluated on observed verdicts decides the property *)
@@ -25,14 +28,6 @@ Print Assumptions c16_safe_b.
 Theorem c16_checker : forall c accepted, check_C16 c accepted = true <-> P_C16 c accepted.
 Proof. exact check_C16_iff. Qed.
 Print Assumptions c16_checker.
-
-(* finite domain (the generated tables), decided by computation: every key of the documentation's example block is the
-   json name of a field of NodeGroupOptions (resp. AWSNodeGroupOptions), except the keys listed in `known_unhonoured` *)
-Theorem c16_keys :
-  (forall k, In k gen_documented_keys -> In k gen_json_tags \/ In k known_unhonoured) /\
-  (forall k, In k gen_documented_aws_keys -> In k gen_aws_json_tags).
-Proof. exact documented_keys_honoured. Qed.
-Print Assumptions c16_keys.
 
 (* non-vacuity: the documentation's example passes validation (so the hypothesis of c16_sound is satisfiable and `safe`
    is inhabited); the auto-discover form (min = max = 0) passes too; the F5 witness (slow = -3, fast = -2) is rejected *)
@@ -54,11 +49,11 @@ Definition with_rates (c : cfg) (sl fa : Z) : cfg :=
      c_soft := c_soft c; c_hard := c_hard c; c_cooldown := c_cooldown c; c_max_node_age := c_max_node_age c;
      c_taint_effect := c_taint_effect c; c_lifecycle := c_lifecycle c; c_dry := c_dry c; c_starve := c_starve c |}.
 
-Example c16_ex_accepted : gen_validate ex_cfg = true /\ safe ex_cfg.
-Proof. split; [vm_compute; reflexivity | apply gen_validate_safe; vm_compute; reflexivity]. Qed.
+Example c16_ex_accepted : model_validate ex_cfg = true /\ safe ex_cfg.
+Proof. split; [vm_compute; reflexivity | apply model_validate_safe; vm_compute; reflexivity]. Qed.
 
-Example c16_ex_auto_discover : gen_validate (with_min_max ex_cfg 0 0) = true /\ gen_validate (with_min_max ex_cfg 0 (-1)) = false.
+Example c16_ex_auto_discover : model_validate (with_min_max ex_cfg 0 0) = true /\ model_validate (with_min_max ex_cfg 0 (-1)) = false.
 Proof. split; vm_compute; reflexivity. Qed.
 
-Example c16_ex_negative_rates_rejected : gen_validate (with_rates ex_cfg (-3) (-2)) = false /\ ~ safe (with_rates ex_cfg (-3) (-2)).
+Example c16_ex_negative_rates_rejected : model_validate (with_rates ex_cfg (-3) (-2)) = false /\ ~ safe (with_rates ex_cfg (-3) (-2)).
 Proof. split; [vm_compute; reflexivity | intro H; apply safe_b_iff in H; vm_compute in H; discriminate]. Qed.
